@@ -7,7 +7,7 @@ import "bytes"
 // the code under test together with a private copy taken at hand-out time, and
 // can re-compare all of them later.
 type Hold struct {
-	live  [][]byte
+	live   [][]byte
 	copies [][]byte
 }
 
